@@ -11,19 +11,22 @@ verus! {
 //@ltype Self => L_H
 //@lextern records(L_H) -> (OArr, SegRecs, BinSegRecs)
 //@lextern from_segments(OArr, SegRecs, BinSegRecs) -> Result<L_H, LErr>
-//@lift feos-core/src/parameter/mod.rs trait:ParameterHetero::subset name=hetero_subset observe=chemical_records
+//@lift feos-core/src/parameter/mod.rs trait:ParameterHetero::subset name=hetero_subset observe=@from_segments.0:OArr,@from_segments.1:SegRecs,@from_segments.2:BinSegRecs
 //@end
 pub proof fn contract_c09_2_hetero_subset(p: L_H, list: Seq<int>, i: int)
     ensures ({
         let (chem, seg, bin) = records(p);
-        let chem2 = hetero_subset__chemical_records(p, list);
+        let chem2 = hetero_subset__from_segments_arg0(p, list);
         &&& chem2.len == list.len()
         &&& (chem2.at)(i) == (chem.at)(list[i])
+        // segment and binary segment records are handed on unchanged
+        &&& hetero_subset__from_segments_arg1(p, list) == seg
+        &&& hetero_subset__from_segments_arg2(p, list) == bin
         &&& (from_segments(chem2, seg, bin) is Ok ==> hetero_subset(p, list) == from_segments(chem2, seg, bin)->Ok_0)
     })
 {
     let (chem, seg, bin) = records(p);
-    let chem2 = hetero_subset__chemical_records(p, list);
+    let chem2 = hetero_subset__from_segments_arg0(p, list);
     let c_in = OArr { len: list.len() as int, at: |k__: int| { let i = list[k__]; (chem.at)(i) } };
     assert(c_in.at =~= chem2.at);
     assert(c_in == chem2);
